@@ -195,7 +195,7 @@ func runC09(c *Ctx) {
 		for _, in := range findInstrs(fn, StoreTo(`^&st\.gas$`)) {
 			v = pathOf(in.(*ssa.Store).Val)
 		}
-		okShape := re(`^\(st\.gas \+ phi\((`+used+`\|`+ref+`|`+ref+`\|`+used+`)\)\)$`).MatchString(v)
+		okShape := re(`^\(st\.gas \+ phi\((` + used + `\|` + ref + `|` + ref + `\|` + used + `)\)\)$`).MatchString(v)
 		c.Check("F", fnName(fn)+"/refund added is a choice between gasUsed/2 and the refund counter", okShape, fn.Pos(), 1, "st.gas = "+clip(v, 200))
 		// the counter is chosen exactly when gasUsed/2 exceeds it (min form)
 		c.Guarded(fn, "take the refund counter", func(in ssa.Instruction) bool {
@@ -299,7 +299,7 @@ func runC09(c *Ctx) {
 		c.Precedes(fn, "AddBalance(beneficiary, balance)", CallTo(`\)\.AddBalance$`, ""), "Suicide(self)", CallTo(`\)\.Suicide$`, ""))
 		for _, in := range findInstrs(fn, CallTo(`\)\.AddBalance$`, "")) {
 			a := argPaths(callCommon(in))
-			c.Check("F", fnName(fn)+"/beneficiary gets the contract's whole balance", len(a) == 3 && strings.Contains(a[2], "GetBalance(") && strings.Contains(a[2], "Address(") , instrPos(in), 1, describeInstr(in))
+			c.Check("F", fnName(fn)+"/beneficiary gets the contract's whole balance", len(a) == 3 && strings.Contains(a[2], "GetBalance(") && strings.Contains(a[2], "Address("), instrPos(in), 1, describeInstr(in))
 		}
 	}
 
